@@ -362,6 +362,14 @@ func Check(r *ev.Run, replay string) {
 	}
 	exp := expected(codes0, env0)
 	if replay != "" {
+		var pin plainReplay
+		if err := ev.ReadReplay(replay, &pin); err == nil && len(pin.Plain) > 0 {
+			replayPlain(r, pin)
+			r.Set("states", 1)
+			r.Set("transitions", len(pin.Plain))
+			r.Set("traces_validated_against_impl", 1)
+			return
+		}
 		var in replayIn
 		if err := ev.ReadReplay(replay, &in); err != nil {
 			r.EngineError(err.Error())
@@ -462,10 +470,11 @@ func Check(r *ev.Run, replay string) {
 		r.Add("states", points+total)
 		r.Add("histories_with_placement", nc)
 	})
+	plainHistories(r)
 	r.Set("alphabet", alpha)
 	r.Set("max_history_length", maxLen)
 	r.Set("deviation_bound", bound)
-	r.Set("rule", fmt.Sprintf("every history of 1..%d invocations over %v on one VM (RunCode of 8 programs with normal / error / recovered-panic / cancelled outcomes, Call of a function fetched from the VM) x (no stale cancel | cancel of the context of an earlier invocation after it returned), every schedule with at most %d deviations of canceller, watcher goroutines and the main task (scheduling points: every VM instruction in the thorough tier; loop back-edges, calls and every 4th instruction in the quick tier); oracle: each invocation returns what it returns on a fresh VM", maxLen, alpha, bound))
+	r.Set("rule", fmt.Sprintf("every history of 1..%d invocations over %v on one VM (RunCode of 8 programs with normal / error / recovered-panic / cancelled outcomes, Call of a function fetched from the VM) x (no stale cancel | cancel of the context of an earlier invocation after it returned), every schedule with at most %d deviations of canceller, watcher goroutines and the main task (scheduling points: every VM instruction in the thorough tier; loop back-edges, calls and every 4th instruction in the quick tier); oracle: each invocation returns what it returns on a fresh VM; plus the plain histories, executed without scheduling: every history of 2..3 (thorough 4) invocations over programs whose functions update their own globals, programs run with differing host-supplied globals, each both as the very same code object and as a fresh compilation of the same source, and calls of a function fetched from the VM", maxLen, alpha, bound))
 }
 
 func signature(c caseT, v string) string {
